@@ -93,7 +93,7 @@ Lemma overlap_aux_spec : forall l last,
   let out := overlap_aux last l in
   incl out l /\ StronglySorted le_key out /\ Forall (le_key last) out /\
   Forall (class_disjoint last) out /\ StronglySorted class_disjoint out /\
-  (forall c, In c l -> In c out \/ exists k, In k (last :: out) /\ c_fn k = c_fn c /\ c_off k <= c_off c < c_end k).
+  (forall c, In c l -> In c out \/ exists k, In k (last :: out) /\ c_fn k = c_fn c /\ c_off k <= c_off c < c_end k /\ le_key k c).
 Proof.
   induction l as [|x r IH]; intros last Hs Hl; simpl.
   { repeat split; auto; try constructor. intros c []. }
@@ -102,7 +102,7 @@ Proof.
             class_disjoint last x ->
             incl out (x :: r) /\ StronglySorted le_key out /\ Forall (le_key last) out /\
             Forall (class_disjoint last) out /\ StronglySorted class_disjoint out /\
-            (forall c, In c (x :: r) -> In c out \/ exists k, In k (last :: out) /\ c_fn k = c_fn c /\ c_off k <= c_off c < c_end k)).
+            (forall c, In c (x :: r) -> In c out \/ exists k, In k (last :: out) /\ c_fn k = c_fn c /\ c_off k <= c_off c < c_end k /\ le_key k c)).
   { intros out Hd. destruct (IH x Hsr Hxr) as [I1 [I2 [I3 [I4 [I5 I6]]]]]. unfold out.
     split; [|split; [|split; [|split; [|split]]]].
     - intros y [<-|Hy]; [now left|right; auto].
@@ -130,8 +130,8 @@ Proof.
   - intros y Hy. right. auto.
   - intros c [<-|Hc].
     + right. exists last. split; [now left|].
-      apply negb_false_iff, Bool.eqb_prop in Efn. split; auto.
-      pose proof (le_key_off last x Hlx Efn). lia.
+      apply negb_false_iff, Bool.eqb_prop in Efn. split; [exact Efn|].
+      pose proof (le_key_off last x Hlx Efn). split; [lia|exact Hlx].
     + apply I6; auto.
 Qed.
 
@@ -143,7 +143,7 @@ Definition covers (k c : cand) : Prop := c_fn k = c_fn c /\ c_off k <= c_off c <
 Theorem gather_spec : forall nl cands, cands <> [] ->
   let out := gather nl cands in
   incl out cands /\ StronglySorted le_key out /\ StronglySorted class_disjoint out /\
-  (forall c, In c cands -> In c out \/ exists k, In k out /\ covers k c).
+  (forall c, In c cands -> In c out \/ exists k, In k out /\ covers k c /\ le_key k c).
 Proof.
   intros nl cands Hne. unfold gather. destruct cands as [|c0 cs0] eqn:Ec; [congruence|]. rewrite <- Ec. clear Hne.
   pose proof (sort_cands_sorted cands) as Hs. pose proof (sort_cands_perm cands) as Hp.
@@ -157,7 +157,41 @@ Proof.
   - constructor; auto.
   - intros c Hc. apply Permutation_in with (l' := x :: r) in Hc; [|apply Permutation_sym; exact Hp].
     destruct Hc as [<-|Hc]; [left; now left|].
-    destruct (I6 c Hc) as [H|[k [Hk1 Hk2]]]; [left; now right|right]. exists k. split; auto.
+    destruct (I6 c Hc) as [H|[k [Hk1 [Hk2 [Hk3 Hk4]]]]]; [left; now right|right]. exists k.
+    split; [exact Hk1|]. split; [split; assumption|exact Hk4].
+Qed.
+
+Lemma sorted_in_cases : forall {A} (R S : A -> A -> Prop) l a b, StronglySorted R l -> StronglySorted S l ->
+  In a l -> In b l -> a = b \/ (R a b /\ S a b) \/ (R b a /\ S b a).
+Proof.
+  intros A R S l a b H. induction H as [|x r Hr IH Hx]; intros HS Ha Hb; [contradiction|].
+  inversion HS as [|? ? HSr HSx]; subst.
+  rewrite Forall_forall in Hx, HSx.
+  destruct Ha as [<-|Ha], Hb as [<-|Hb]; auto.
+Qed.
+
+(** sortByOffsetSlice "prefers longer candidates if starting at same position": a kept range is the longest
+    candidate of its class that starts at its offset *)
+Theorem gather_prefers_longer : forall nl cands k c, cands <> [] ->
+  In k (gather nl cands) -> In c cands -> c_fn c = c_fn k -> c_off c = c_off k -> c_sz c <= c_sz k.
+Proof.
+  intros nl cands k c Hne Hk Hc Hfn Hoff.
+  destruct (gather_spec nl cands Hne) as [_ [Hs [Hd Hcomp]]]. cbv zeta in *.
+  destruct (Nat.le_gt_cases (c_sz c) (c_sz k)) as [|Hgt]; [assumption|exfalso].
+  assert (Hnle : ~ le_key k c).
+  { unfold le_key, cand_less. rewrite Hfn, Bool.eqb_reflx. cbn [negb].
+    rewrite Hoff, Nat.eqb_refl. intros E. apply Nat.ltb_ge in E. lia. }
+  destruct (Hcomp c Hc) as [Hin|[k' [Hk' [[Hf' Hr'] Hle']]]].
+  - (* c kept as well: two kept ranges of one class at one offset *)
+    destruct (sorted_in_cases _ _ _ c k Hs Hd Hin Hk) as [E|[[E1 E2]|[E1 E2]]].
+    + subst. lia.
+    + specialize (E2 Hfn). unfold c_end in E2. lia.
+    + contradiction.
+  - (* c dropped because of k' *)
+    destruct (sorted_in_cases _ _ _ k' k Hs Hd Hk' Hk) as [E|[[E1 E2]|[E1 E2]]].
+    + subst. contradiction.
+    + specialize (E2 ltac:(congruence)). unfold c_end in *. lia.
+    + apply Hnle. eapply le_key_trans; eauto.
 Qed.
 
 (** no text atom contributed a candidate: the single synthetic range is the whole file name *)
